@@ -25,8 +25,18 @@ for d in sorted(glob.glob("/verif/seeded/*")):
     m = json.load(open(mp))
     r = best.get(seed)
     if r is None:
-        m["detected_by"] = None
-        none += 1
+        # no record in the files given: keep what an earlier run filled in
+        cur = m.get("detected_by") or {}
+        first = cur.get("first_detecting_check")
+        if first and first == cur.get("own_property_check"):
+            own += 1
+        elif first:
+            other += 1
+            lines.append(f"{seed}: {first}")
+        else:
+            none += 1
+            lines.append(f"{seed}: NOT DETECTED / not run")
+        continue
     else:
         m["detected_by"] = {"first_detecting_check": r["detected_by"] or None, "own_property_check": r["own"], "checks_tried_in_order": r["tried"].split(), "tier": "quick"}
         if r.get("note"):
